@@ -311,7 +311,7 @@ class C20(Check):
             'started inside, started before; each composite preceded by an unfinished window of the same composite. Oracle transcribed from the statement. states = distinct window shapes; transitions = feeds; '
             'non-trivial = window with >=2 nested records.')
     assumptions = ('leniency: first nested real-fault record of the undecoded kind: only "does not raise and omits or uses a later '
-                   'decoded record" is demanded; for a failed fault (result != 0) pid/protection may be omitted',
+                   'decoded record" is demanded; for a failed fault (result != 0) the fault type and pid/protection may be omitted, as the pinned tree does (if shown they are the END record s and the nested record s)',
                    'launch list order among equal load addresses is not judged')
 
     def bounds(self):
